@@ -26,7 +26,9 @@ RULE = ("Floats are built by construction as <integer mantissa of 1..17 digits> 
         "units, the uncertainty given as the `uncertainty` argument or carried by the number itself "
         "(quantities.UncertainQuantity, with / without unit=), optionally a two-argument callable `fmt` printing "
         "'%.df(%.0f)'; 'roman': 1..3999 exhaustive; 'reaction': five reactions of order 1-3 with float / int / quantity "
-        "parameters (unit consistent with the order) printed by string/latex/unicode/html with_param=True.  "
+        "parameters (unit consistent with the order; magnitude also exactly 0 / 0.0 / -0.0) or a rate expression holding "
+        "the number (MassAction([k]), with unique_keys, MassAction([Arrhenius([A, Ea/R])]), with / without units) "
+        "printed by string/latex/unicode/html with_param=True.  "
         "Non-trivial = exponent form, or rounding carried into a new decade, or an uncertainty, or a unit; roman: n>=4; "
         "distinct by case digest.")
 ASSUMPTIONS = [
@@ -756,13 +758,21 @@ RXN_DIGITS = {"string": 3, "latex": 5, "unicode": 5, "html": 5}     # '%.3g' / d
 @st.composite
 def reaction_cases(draw):
     ri = draw(st.integers(0, len(REACTIONS) - 1))
-    kind = draw(st.sampled_from(["float", "quantity", "quantity", "int"]))
+    kind = draw(st.sampled_from(["float", "quantity", "quantity", "int", "expr", "quantity"]))
     case = {"rxn": ri, "kind": kind}
+    zero = draw(st.integers(0, 5)) == 5         # a parameter of magnitude exactly zero (a switched-off reaction)
     if kind == "int":
-        case["param"] = draw(st.integers(1, 10 ** 9)) if draw(st.booleans()) else draw(st.integers(1, 20))
+        case["param"] = 0 if zero else (draw(st.integers(1, 10 ** 9)) if draw(st.booleans()) else draw(st.integers(1, 20)))
         return case
-    x = draw(floats_g4(-150, 150) if kind == "quantity" else floats_g4())
-    case["param"] = abs(x)
+    x = draw(floats_g4(-150, 150) if kind in ("quantity", "expr") else floats_g4())
+    case["param"] = draw(st.sampled_from([0.0, 0, -0.0] if kind == "quantity" else [0.0, -0.0])) if zero else abs(x)
+    if kind == "expr":
+        # a rate expression holding the number: MassAction([k]) / with unique_keys / MassAction([Arrhenius([A, Ea_over_R])])
+        case["form"] = draw(st.sampled_from(["ma", "ma_keys", "ma_arrhenius", "ma_keys_only"]))
+        if case["form"] == "ma_arrhenius":
+            case["Ea_over_R"] = draw(st.sampled_from([5100.0, 0.0, 12345.678, 250.5]))
+        if draw(st.booleans()):
+            kind = "quantity"                       # the number inside the expression carries a unit
     if kind == "quantity":
         order = sum(REACTIONS[ri][0].values())
         conc = draw(st.sampled_from(CONC_UNITS))
@@ -772,6 +782,55 @@ def reaction_cases(draw):
     return case
 
 
+RE_ANY_NUMBER = re.compile(r"(?<![A-Za-z_\d.])[-+]?(?:\d+\.?\d*|\.\d+)(?:[eE][-+]?\d+)?")
+
+
+def shortest_digits(x):
+    """Number of significant digits of the shortest decimal text that reads back as the float x."""
+    d = Decimal(repr(float(x))).as_tuple().digits
+    return len("".join(map(str, d)).strip("0")) or 1
+
+
+def number_shown(text, m):
+    """Is the number m readable in `text`: some numeric token t with |t - m| <= half a unit of t's last printed digit
+    and at least min(3, digits m needs) significant digits (a zero m: a token of value zero)."""
+    need = min(3, shortest_digits(m))
+    M = Fraction(Decimal(repr(m))) if isinstance(m, int) else Fraction(m)
+    for tok in RE_ANY_NUMBER.findall(text):
+        try:
+            t = Decimal(tok)
+        except Exception:  # noqa
+            continue
+        if M == 0:
+            if t == 0:
+                return True
+            continue
+        tup = t.as_tuple()
+        ndig = len("".join(map(str, tup.digits)).lstrip("0"))
+        if ndig < need:
+            continue
+        if abs(Fraction(t) - M) <= p10(tup.exponent) / 2:
+            return True
+    return False
+
+
+def _expr_param(case, value, unit):
+    from chempy.kinetics.rates import MassAction, Arrhenius
+    import quantities as pq
+    k = value if unit is None else pq.Quantity(value, unit)
+    form = case["form"]
+    if form == "ma":
+        return MassAction([k]), [value]
+    if form == "ma_keys":
+        return MassAction([k], unique_keys=("k_fw",)), [value]
+    if form == "ma_keys_only":
+        return MassAction(unique_keys=("k_fw",)), []          # no number to show
+    if form == "ma_arrhenius":
+        ea = case["Ea_over_R"]
+        return MassAction([Arrhenius([k, ea if unit is None else pq.Quantity(ea, pq.K)])]), [value, ea]
+    raise ValueError(form)
+
+
 def check_reaction(case, ctx):
     from chempy import Reaction, Substance
     reac, prod = REACTIONS[case["rxn"]]
@@ -779,8 +838,15 @@ def check_reaction(case, ctx):
     ctx.label(kind, "order=%d" % sum(reac.values()))
     ctx.nontrivial(True)
     value = case["param"]
+    if value == 0:
+        ctx.label("zero_magnitude:" + kind)
     want_units = None
-    if kind == "quantity":
+    shown_numbers = None
+    if kind == "expr":
+        unit = unit_object(case["units"]) if "units" in case else None
+        param, shown_numbers = _expr_param(case, value, unit)
+        ctx.label("expr:" + case["form"], "expr:with_units" if unit is not None else "expr:plain")
+    elif kind == "quantity":
         import quantities as pq
         param = pq.Quantity(value, unit_object(case["units"]))
         want_units = unit_dict(case["units"])
@@ -792,12 +858,23 @@ def check_reaction(case, ctx):
         fn = getattr(rxn, meth)
         args = () if meth == "string" else (subst,)
         body = fn(*args, with_param=False)
-        out = fn(*args, with_param=True)
+        out = sut(lambda: fn(*args, with_param=True))
+        if is_err(out):
+            ctx.fail("printing_with_param_raises", method=meth, error=repr(out), kind=kind, form=case.get("form"))
+            continue
         head = body + RXN_SEP[meth]
         if not isinstance(out, str) or not out.startswith(head) or len(out) == len(head):
             ctx.fail("parameter_not_appended", method=meth, text=repr(out), without_param=repr(body))
             continue
         ptxt = out[len(head):]
+        if shown_numbers is not None:
+            # an expression object as parameter: its own text follows; every number it holds must be readable there
+            for m in shown_numbers:
+                if not number_shown(ptxt, m):
+                    ctx.fail("expression_parameter_magnitude_not_shown", method=meth, text=out, number=m,
+                             form=case.get("form"))
+                    break
+            continue
         num_txt, unit_txt = ptxt, None
         if want_units is not None:
             cut = " $" if meth == "latex" else " "
@@ -838,7 +915,9 @@ SUBCHECKS = [
              tolerances={"float_rounding_rel": float(FLOAT_SLACK), "conversion_rel": float(CONV_SLACK),
                          "near_power_of_ten_rel": float(NEAR)}),
     SubCheck("roman", check_roman, enumerate=enum_roman, rule="1..3999 exhaustive: own decoder and canonical-numeral regex"),
-    SubCheck("reaction", check_reaction, strategy=reaction_cases(), quick=600, thorough=30000,
-             rule="5 reactions (order 1-3) x float/int/quantity parameter (unit = conc^(1-order)/time in 6x4 spellings) "
+    SubCheck("reaction", check_reaction, strategy=reaction_cases(), quick=900, thorough=30000,
+             rule="5 reactions (order 1-3) x float/int/quantity parameter (unit = conc^(1-order)/time in 6x4 spellings; "
+                  "also magnitude zero) or an expression parameter (MassAction / unique_keys / Arrhenius inside, with or "
+                  "without units: no exception, parameter text appended, every held number readable to >= 3 digits) "
                   "x string/latex/unicode/html"),
 ]
